@@ -110,6 +110,20 @@ def cells(tier):
             if lst:
                 ind["tasks"] = lst
             out.append((f"{kind}.{'all' if lst is None else 'list'}", fam.base(5, tasks, indicators=[ind]), 5))
+    # several resources with NON-constant costs (each trapezoid area may be a half-integer) and a worker with three busy
+    # intervals on a horizon that does not divide 100 (roundings must not add up per term)
+    lin = {"kind": "linear", "slope": 1, "intercept": 2}
+    out.append(("ResourceCost.four_linear", fam.base(3, [fam.fx("t0", 1), fam.fx("t1", 1)], workers=[
+        {"name": f"w{i}", "cost": dict(lin)} for i in range(4)], requirements=[
+        {"task": "t0", "resource": "w0"}, {"task": "t0", "resource": "w1"}, {"task": "t1", "resource": "w2"},
+        {"task": "t1", "resource": "w3"}],
+        indicators=[{"id": "i", "kind": "ResourceCost", "resources": ["w0", "w1", "w2", "w3"]}]), 3))
+    out.append(("Utilization.three_tasks.H7", fam.base(7, [fam.fx("t0", 1), fam.fx("t1", 1), fam.fx("t2", 1)], workers=W[:1],
+                                                     requirements=on([{"name": "t0"}, {"name": "t1"}, {"name": "t2"}]),
+                                                     indicators=[{"id": "i", "kind": "Utilization", "resource": "w0"}]), 7))
+    out.append(("Utilization.four_tasks.H12", fam.base(12, [fam.fx(f"t{i}", 1) for i in range(4)], workers=W[:1],
+                                                      requirements=on([{"name": f"t{i}"} for i in range(4)]),
+                                                      indicators=[{"id": "i", "kind": "Utilization", "resource": "w0"}]), 6))
     # a due date of ZERO (total tardiness = total completion time) next to ordinary ones
     for kind in ("Tardiness", "NbTardy", "MaxLateness", "Earliness"):
         for lst in (None, ["t0", "t1"]):
